@@ -194,10 +194,23 @@ def body_large(ctx, conv):
     nj, ni = 101, 11
     if conv == 'shoc_standard':
         ds = builders.shoc_standard(nj, ni, face_x=numpy.zeros((nj, ni)), face_y=numpy.zeros((nj, ni)))
+    elif conv == 'cf2d-holes':
+        # fewer polygons than cells, across a digit boundary: 12 cells, 4 of them without geometry, so the largest
+        # linear index (11) has more digits than the number of polygons (8)
+        nj, ni = 3, 4
+        jj, ii = numpy.meshgrid(numpy.arange(nj, dtype=float), numpy.arange(ni, dtype=float), indexing='ij')
+        lat, lon = 10.0 + jj, 100.0 + ii
+        lonb = numpy.stack([lon - .5, lon + .5, lon + .5, lon - .5], axis=-1)
+        latb = numpy.stack([lat - .5, lat - .5, lat + .5, lat + .5], axis=-1)
+        for (j, i) in ((0, 0), (0, 2), (1, 1), (1, 3)):
+            lonb[j, i] = numpy.nan
+            latb[j, i] = numpy.nan
+        ds = builders.cf2d(nj, ni, lat=lat, lon=lon, lat_bounds=latb, lon_bounds=lonb)
     else:
         ds = builders.cf1d(nj, ni)
     cv = ds.ems
-    N = nj * ni
+    present = [n for n, p in enumerate(cv.polygons) if p is not None]
+    N = len(present)
     os.makedirs(os.path.join(VERIF, '.work'), exist_ok=True)
     work = tempfile.mkdtemp(dir=os.path.join(VERIF, '.work'), prefix='c15L-')
     try:
@@ -213,7 +226,7 @@ def body_large(ctx, conv):
             rd.close()
         ctx.check(len(recs) == N, 'one record per cell')
         bad = []
-        for n, r in enumerate(recs):
+        for n, r in zip(present, recs):
             try:
                 idx = json.loads(r['index'])
             except Exception:
@@ -228,7 +241,7 @@ def body_large(ctx, conv):
             props = [f['properties'] for f in Recorded.dumped]
         else:
             props = [f['properties'] for f in json.load(open(os.path.join(work, 'g.geojson')))['features']]
-        ctx.check(len(props) == N and all(p['linear_index'] == n and json.loads(json.dumps(p['index'])) == json.loads(json.dumps(cv.wind_index(n))) for n, p in enumerate(props)),
+        ctx.check(len(props) == N and all(p['linear_index'] == n and json.loads(json.dumps(p['index'])) == json.loads(json.dumps(cv.wind_index(n))) for n, p in zip(present, props)),
                   'GeoJSON: every feature carries the linear and native index of its cell (also for long indexes)')
     finally:
         shutil.rmtree(work, ignore_errors=True)
@@ -289,6 +302,7 @@ def cases(tier):
         nm = 'all' if nan_cells is None else len(nan_cells)
         yield Case(f'{conv}:{shape[0]}x{shape[1]}:{bounds}:nan{nm}:after-another-export', body,
                    dict(conv=conv, shape=shape, bounds=bounds, nan_cells=nan_cells, history=True), patches=_patches(), max_paths=5000, split=8)
+    yield Case('large:cf2d-holes:3x4', body_large, dict(conv='cf2d-holes'), patches=_large_patches(), max_paths=5)
     for conv in ('shoc_standard', 'cf1d'):
         yield Case(f'large:{conv}:101x11', body_large, dict(conv=conv), patches=_large_patches(), max_paths=5)
     for mesh in (['tqp'] if q else ['tqp', 'fan', 'tq']):
